@@ -174,7 +174,15 @@ let () =
                     | _ -> None) in
                 (match Option.bind (field "rs=" s) parse_rs, Option.bind (field "ws=" s) parse_ws, field "w=" s with
                  | Some rs', Some ws', Some w ->
+                   let ename = (match s with "err" :: name :: _ -> name | _ -> "") in
+                   let dup = (ename = "DuplicateContentTypeHeader" || ename = "DuplicateContentLengthHeader" || ename = "DuplicateTransferEncodingHeader") in
+                   (* a response that carries one of the automatic fields itself (once or several times) is refused by the
+                      specific error before any byte, whenever the call is not a state misuse anyway *)
+                   let collision_unreported = (match o with
+                       | OWrite r -> r.r_normal && collides r && ws = WS_Response && not (dup && w = "x" && ws' = ws)
+                       | _ -> false) in
                    if bad_err then "oracle=fail@unknown-error@" ^ string_of_int i
+                   else if collision_unreported then "oracle=fail@conflicting-header-not-refused@" ^ string_of_int i
                    else if oracle_c05_step (fun r -> r.r_code) rs ws o err okind rs' ws' (bytes_of_tok w)
                    then go (i+1) rs' ws' ot st else "oracle=fail@contract@" ^ string_of_int i
                  | _ -> "oracle=fail@unparsable")
